@@ -18,6 +18,7 @@ NAMES = {
     "pkg_context": "context", "pkg_errors": "errors", "member_Validate": "Validate", "member_Context": "Context", "member_HTTPClient": "HTTPClient",
     "member_Error": "Error", "receiver_o": "o", "receiver_m": "m", "slash": "x/y", "initialism": "user id http url", "camel": "myThingID",
     "underscore_first": "_private thing", "dollar": "$thing", "single_letter": "a", "go_test_suffix": "thing_test",
+    "keyword_cap_Type": "Type", "keyword_cap_Range": "Range", "keyword_cap_Default": "Default", "keyword_cap_Func": "Func", "keyword_cap_Map": "Map",
 }
 
 
@@ -30,12 +31,12 @@ def pair_spec(pos, names):
     op = d["paths"]["/things"]["get"]
     a, b = names
     if pos == "property":
-        d["definitions"]["thing"]["properties"][a] = {"type": "integer"}
-        d["definitions"]["thing"]["properties"][b] = {"type": "string"}
+        d["definitions"]["zbase"]["properties"][a] = {"type": "integer"}
+        d["definitions"]["zbase"]["properties"][b] = {"type": "string"}
     elif pos == "parameter":
         op["parameters"] += [{"name": a, "in": "query", "type": "string"}, {"name": b, "in": "query", "type": "integer"}]
     elif pos == "enum":
-        d["definitions"]["thing"]["properties"]["kind"]["enum"] = [a, b, "other"]
+        d["definitions"]["zbase"]["properties"]["kind"]["enum"] = [a, b, "other"]
     elif pos == "header":
         op["responses"]["200"]["headers"] = {a: {"type": "string"}, b: {"type": "integer"}}
     elif pos == "tag":
@@ -49,14 +50,14 @@ def name_spec(pos, name):
     import urllib.parse
     d = {"swagger": "2.0", "info": {"title": "names", "version": "1"}, "consumes": ["application/json"], "produces": ["application/json"],
          "paths": {"/things": {"get": {"operationId": "listThings", "tags": ["things"], "parameters": [{"name": "q", "in": "query", "type": "string"}],
-                                        "responses": {"200": {"description": "ok", "schema": {"$ref": "#/definitions/thing"}}}}}},
-         "definitions": {"thing": {"type": "object", "properties": {"name": {"type": "string"}, "kind": {"type": "string", "enum": ["one", "two"]}}}}}
+                                        "responses": {"200": {"description": "ok", "schema": {"$ref": "#/definitions/zbase"}}}}}},
+         "definitions": {"zbase": {"type": "object", "properties": {"name": {"type": "string"}, "kind": {"type": "string", "enum": ["one", "two"]}}}}}
     op = d["paths"]["/things"]["get"]
     if pos == "definition":
         d["definitions"][name] = {"type": "object", "properties": {"a": {"type": "string"}}}
         d["paths"]["/other"] = {"get": {"operationId": "getOther", "responses": {"200": {"description": "ok", "schema": {"$ref": "#/definitions/" + urllib.parse.quote(esc(name))}}}}}
     elif pos == "property":
-        d["definitions"]["thing"]["properties"][name] = {"type": "integer"}
+        d["definitions"]["zbase"]["properties"][name] = {"type": "integer"}
     elif pos == "parameter":
         op["parameters"].append({"name": name, "in": "query", "type": "string"})
     elif pos == "operationId":
@@ -64,7 +65,7 @@ def name_spec(pos, name):
     elif pos == "tag":
         op["tags"] = [name]
     elif pos == "enum":
-        d["definitions"]["thing"]["properties"]["kind"]["enum"] = [name, "other"]
+        d["definitions"]["zbase"]["properties"]["kind"]["enum"] = [name, "other"]
     elif pos == "header":
         op["responses"]["200"]["headers"] = {name: {"type": "string"}}
     elif pos == "scheme":
@@ -179,7 +180,7 @@ def check(run, replay=None):
             if o == "principal" and c["doc"] == "rich" and c["target"] != "model":
                 args += ["--principal", "models.Thing"]
         g = run.sh([swagger] + args, cwd=mod, check=False, timeout=1800)
-        evs = [dict(ev="Generate", i=i, exit=g.returncode, errorPrinted=len(g.stderr.strip()) > 0, mustSucceed=c["kind"] == "doc",
+        evs = [dict(ev="Generate", i=i, exit=g.returncode, errorPrinted=len(g.stderr.strip()) > 0, mustSucceed=c["kind"] in ("doc", "name"),
                     err=g.stderr[-400:] if g.returncode else "")]
         if g.returncode == 0:
             b = run.sh(["go", "build", "-gcflags=-e", "./..."], cwd=mod, check=False, timeout=1800)
